@@ -3,6 +3,7 @@
      p <hextext> <k> {<32|64> <lit> <bits>}*k <tree>
                                                 -> p ok <hex of doc (parse text)> tt=<root id> same=<parse = tree>
                                                  | p err                           (spec parser + NBT grammar)
+     q <hextext>                                -> q ok <hex of doc (parse text)> tt=<root id> | q err
    tree tokens: b z | s z | i z | l z | f bits lit | d bits lit | S hex | B n z* | I n z* | L n z*
                 | T n tree* | C n (hexkey tree)*
    The float oracles are tables filled from the case line: the harness computes the decimal text / the
@@ -73,4 +74,8 @@ let () = iter_lines (fun line ->
       (match parse_doc (pf pf32_tbl) (pf pf64_tbl) (bytes_of_hex h) with
        | Some (t', d) -> Printf.printf "p ok %s tt=%d same=%d\n" (hex_of_bytes d) (int_of_n (kind t')) (if t' = t then 1 else 0)
        | None -> print_string "p err\n")
+  | ["q"; h] ->
+      (match parse_doc (pf pf32_tbl) (pf pf64_tbl) (bytes_of_hex h) with
+       | Some (t', d) -> Printf.printf "q ok %s tt=%d\n" (hex_of_bytes d) (int_of_n (kind t'))
+       | None -> print_string "q err\n")
   | _ -> Printf.printf "?? %s\n" line)
